@@ -1418,6 +1418,22 @@ static void gen_discard(Node *node) {
     println("  fstp %%st(0)");
 }
 
+// A break, continue or goto may leave a statement expression that is an
+// operand of an unfinished expression: whatever that expression has
+// pushed so far must be released, or every such jump leaks stack. The
+// target need not have been generated yet, so the number of bytes that
+// are pushed at a label is handed to the assembler as a symbol.
+static void gen_label(char *label) {
+  println("  .set .L.depth%s, %d", label, depth * 8);
+  println("%s:", label);
+}
+
+static void gen_jump(char *label) {
+  if (depth)
+    println("  add $%d-.L.depth%s, %%rsp", depth * 8, label);
+  println("  jmp %s", label);
+}
+
 static void gen_stmt(Node *node) {
   println("  .loc %d %d", node->tok->file->file_no, node->tok->line_no);
 
@@ -1446,22 +1462,22 @@ static void gen_stmt(Node *node) {
       println("  je %s", node->brk_label);
     }
     gen_stmt(node->then);
-    println("%s:", node->cont_label);
+    gen_label(node->cont_label);
     if (node->inc)
       gen_discard(node->inc);
     println("  jmp .L.begin.%d", c);
-    println("%s:", node->brk_label);
+    gen_label(node->brk_label);
     return;
   }
   case ND_DO: {
     int c = count();
     println(".L.begin.%d:", c);
     gen_stmt(node->then);
-    println("%s:", node->cont_label);
+    gen_label(node->cont_label);
     gen_expr(node->cond);
     cmp_zero(node->cond->ty);
     println("  jne .L.begin.%d", c);
-    println("%s:", node->brk_label);
+    gen_label(node->brk_label);
     return;
   }
   case ND_SWITCH:
@@ -1495,7 +1511,7 @@ static void gen_stmt(Node *node) {
 
     println("  jmp %s", node->brk_label);
     gen_stmt(node->then);
-    println("%s:", node->brk_label);
+    gen_label(node->brk_label);
     return;
   case ND_CASE:
     println("%s:", node->label);
@@ -1506,14 +1522,14 @@ static void gen_stmt(Node *node) {
       gen_stmt(n);
     return;
   case ND_GOTO:
-    println("  jmp %s", node->unique_label);
+    gen_jump(node->unique_label);
     return;
   case ND_GOTO_EXPR:
     gen_expr(node->lhs);
     println("  jmp *%%rax");
     return;
   case ND_LABEL:
-    println("%s:", node->unique_label);
+    gen_label(node->unique_label);
     gen_stmt(node->lhs);
     return;
   case ND_RETURN:
